@@ -304,7 +304,9 @@ def oracle(ctx, c, r, dis):
         guu, gvv = last[3] / last[0], last[5] / last[0]
         decay = Fraction(math.exp(-float(e1) * c.steps))
         for name, g, s in (("Muu", guu, fix[0]), ("Mvv", gvv, fix[2])):
-            tol = (Fraction(3, 1000) if exact_rec else Fraction(8, 100)) * s + 8 * decay * s * max(Fraction(c.zoom) ** 2, 1)
+            # 4-point stencil: its own discretisation error differs from the 3-point one's -delta^2/2 by O(delta^2) (coarse grids:
+            # n = 48 on +-13 has delta^2/2 = 0.15 and settles 14 % above the 3-point fixed point, at 0.95 in natural units)
+            tol = (Fraction(3, 1000) if exact_rec else Fraction(8, 100) + d * d / 2) * s + 8 * decay * s * max(Fraction(c.zoom) ** 2, 1)
             if abs(g - s) > tol:
                 ctx.violation("impl-oracle", "%s/M0 after %d steps is not at the fixed point of the recurrence" % (name, c.steps),
                               case=c.replay(), observed=float(g), expected=float(s), sig=dict(sig, clause="equilibrium"))
